@@ -345,6 +345,172 @@ def setter_info(cls, key):
     return attrs.pop(), norms.pop()
 
 
+
+# --------------------------------------------------------------------------
+# element routes: attribute-style setters / getters and the set/get/unset methods of the element classes
+
+ELEMENT_FILES = [("ModelElement", "fim/user/model_element.py"), ("Node", "fim/user/node.py"), ("Component", "fim/user/component.py"),
+                 ("Interface", "fim/user/interface.py"), ("NetworkService", "fim/user/network_service.py"), ("Link", "fim/user/link.py")]
+ELEMENT_KIND = {"Node": ("node", "NodeSliver", "node_sliver"), "Component": ("component", "ComponentSliver", "component_sliver"),
+                "Interface": ("interface", "InterfaceSliver", "interface_sliver"),
+                "NetworkService": ("service", "NetworkServiceSliver", "network_service_sliver"),
+                "Link": ("link", "NetworkLinkSliver", "link_sliver")}
+TOPO = "self.__dict__.get('topo', None) is not None"
+ROUTE_METHODS = {"set_property", "set_properties", "unset_property", "update_labels", "update_capacities"}
+
+
+def _norm_body(fn):
+    return "\n".join(ast.unparse(st) for st in strip_doc(fn.body))
+
+
+def _setter_form(fn, attr):
+    """-> (form, prop, cls)   forms whose None argument reaches set_property(prop, None), i.e. unset"""
+    if len(fn.args.args) != 2:
+        raise ExtractionError("attribute setter %s: signature" % attr)
+    v = fn.args.args[1].arg
+    body = _norm_body(fn)
+    m = None
+    import re
+    m = re.fullmatch(r"if %s:\n    self\.set_property\('(\w+)', %s\)" % (re.escape(TOPO), v), body)
+    if m:
+        return "direct", m.group(1), ""
+    m = re.fullmatch(r"self\._name = %s\nif %s:\n    self\.set_property\('(\w+)', %s\)" % (v, re.escape(TOPO), v), body)
+    if m:
+        return "nameField", m.group(1), ""
+    m = re.fullmatch(r"if %s:\n    if %s is None or isinstance\(%s, (\w+)\):\n        self\.set_property\('(\w+)', %s\)\n    else:\n"
+                     r"        self\.set_property\('(\w+)', (\w+)\(%s\)\)" % (re.escape(TOPO), v, v, v, v), body)
+    if m and m.group(2) == m.group(3) and m.group(1) == m.group(4):
+        return "jsonWrap", m.group(2), m.group(1)
+    m = re.fullmatch(r"if %s:\n    imtype = self\.get_property\('image_type'\)\n    self\.set_properties\(image_ref=%s, image_type=imtype\)"
+                     % (re.escape(TOPO), v), body)
+    if m:
+        return "imagePair", "image_ref", ""
+    raise ExtractionError("attribute setter `%s` has an unrecognised body (does None still reach set_property(name, None)?):\n%s" % (attr, body))
+
+
+def _getter_form(fn):
+    body = _norm_body(fn)
+    import re
+    m = re.fullmatch(r"return self\.get_property\('(\w+)'\) if %s else None" % re.escape(TOPO), body)
+    if m:
+        return "plain", m.group(1)
+    m = re.fullmatch(r"d = self\.get_property\('(\w+)'\) if %s else None\nreturn d\.data if d is not None else None" % re.escape(TOPO), body)
+    if m:
+        return "dataOf", m.group(1)
+    if body == "return self._name":
+        return "cached", "name"
+    return None
+
+
+def _is_decorated(fn, what):
+    for d in fn.decorator_list:
+        if ast.unparse(d) == what:
+            return True
+    return False
+
+
+def element_routes():
+    """{class: {"props": [(attr, prop, getter form, setter form, cls)], "methods": [...]}} from the AST of fim/user/*.py"""
+    out = {}
+    for clsname, rel in ELEMENT_FILES:
+        tree, src = parse(rel)
+        cls = find_class(tree, clsname)
+        getters, setters, methods = {}, {}, {}
+        for n in cls.body:
+            if not isinstance(n, ast.FunctionDef):
+                continue
+            if _is_decorated(n, "property"):
+                getters[n.name] = n
+            elif any(ast.unparse(d).endswith(".setter") for d in n.decorator_list):
+                setters[n.name] = n
+            elif n.name.startswith(("set_", "update_", "unset_")):
+                methods[n.name] = n
+        extra = set(methods) - ROUTE_METHODS
+        if extra:
+            raise ExtractionError("%s has setter-like methods the element model does not know: %s" % (clsname, sorted(extra)))
+        props = []
+        for attr in sorted(set(getters) | set(setters)):
+            gf = _getter_form(getters[attr]) if attr in getters else None
+            if attr in setters:
+                form, prop, c = _setter_form(setters[attr], attr)
+                if gf is None:
+                    raise ExtractionError("%s.%s has a setter but its getter is not a plain property read" % (clsname, attr))
+                if gf[1] != prop and form != "imagePair":
+                    raise ExtractionError("%s.%s reads %s but writes %s" % (clsname, attr, gf[1], prop))
+                props.append((attr, prop, gf[0], form, c))
+            elif gf is not None:
+                props.append((attr, gf[1], gf[0], "readOnly", ""))
+        out[clsname] = {"props": props, "methods": methods, "src": src, "node": cls}
+    # method idioms the hand-written model mirrors: pin their normalised text
+    me = out["ModelElement"]["methods"]
+    want_unset = ("assert pname is not None\nprop_name = self.topo.graph_model.map_sliver_property_to_graph(pname)\n"
+                  "if prop_name is not None:\n    self.topo.graph_model.unset_node_property(node_id=self.node_id, prop_name=prop_name)")
+    if _norm_body(me["unset_property"]) != want_unset:
+        raise ExtractionError("ModelElement.unset_property changed:\n" + _norm_body(me["unset_property"]))
+    for what, cl in (("labels", "Labels"), ("capacities", "Capacities")):
+        want = ("if self.%s is None:\n    self.set_property('%s', %s(**kwargs))\nelse:\n    new_%s = %s.update(self.%s, **kwargs)\n"
+                "    self.set_property('%s', new_%s)" % (what, what, cl, what[:3], cl, what, what, what[:3]))
+        if _norm_body(me["update_" + what]) != want:
+            raise ExtractionError("ModelElement.update_%s changed:\n%s" % (what, _norm_body(me["update_" + what])))
+    for clsname, (kind, slcls, fam) in ELEMENT_KIND.items():
+        ms = out[clsname]["methods"]
+        import re
+        sp = _norm_body(ms["set_property"])
+        m = re.fullmatch(r"if pval is None:\n    self\.unset_property\(pname\)\n    return\n(\w+) = %s\(\)\n\1\.set_property\(prop_name=pname, prop_val=pval\)\n"
+                         r"prop_dict = self\.topo\.graph_model\.%s_to_graph_properties_dict\(\1\)\n"
+                         r"self\.topo\.graph_model\.update_node_properties\(node_id=self\.node_id, props=prop_dict\)" % (slcls, fam), sp)
+        if not m:
+            raise ExtractionError("%s.set_property changed (None -> unset_property, fresh sliver, to-graph, update):\n%s" % (clsname, sp))
+        sps = _norm_body(ms["set_properties"])
+        m = re.fullmatch(r"(\w+) = %s\(\)\n\1\.set_properties\(\*\*kwargs\)\nprop_dict = self\.topo\.graph_model\.%s_to_graph_properties_dict\(\1\)\n"
+                         r"self\.topo\.graph_model\.update_node_properties\(node_id=self\.node_id, props=prop_dict\)" % (slcls, fam), sps)
+        if not m:
+            raise ExtractionError("%s.set_properties changed:\n%s" % (clsname, sps))
+        gp = [n for n in out[clsname]["node"].body if isinstance(n, ast.FunctionDef) and n.name == "get_property"]
+        if len(gp) != 1:
+            raise ExtractionError("%s.get_property missing" % clsname)
+        g = _norm_body(gp[0])
+        m = re.fullmatch(r"(?:assert pname is not None\n)?_, node_properties = self\.topo\.graph_model\.get_node_properties\(node_id=self\.node_id\)\n"
+                         r"(\w+) = self\.topo\.graph_model\.%s_from_graph_properties_dict\(node_properties\)\nreturn \1\.get_property\(pname\)" % fam, g)
+        if not m:
+            raise ExtractionError("%s.get_property changed:\n%s" % (clsname, g))
+    return out
+
+
+def routes_lean(routes):
+    body = """/-- how an attribute-style setter `el.<attr> = v` reaches the store -/
+inductive RouteForm | direct | jsonWrap | imagePair | nameField | readOnly
+  deriving DecidableEq, Repr, Inhabited
+inductive GetForm | plain | dataOf | cached
+  deriving DecidableEq, Repr, Inhabited
+
+/-- one attribute (python `property`) of an element class: `get` reads `get_property(prop)` (or its `.data`), the
+setter calls `set_property(prop, v)` (`direct`; `jsonWrap`: wraps a non-object in class `cls`; both pass None on, which
+unsets), or pairs `image_ref` with the stored image type (`imagePair`) -/
+structure AttrRoute where
+  attr : String
+  prop : String
+  get : GetForm
+  form : RouteForm
+  cls : String
+  deriving DecidableEq, Repr, Inhabited
+
+"""
+    for clsname, (kind, _, _) in ELEMENT_KIND.items():
+        allp = {}
+        for src in ("ModelElement", clsname):      # the element class overrides the base
+            for attr, prop, gf, form, c in routes[src]["props"]:
+                allp[attr] = (attr, prop, gf, form, c)
+        rows = ["{ attr := %s, prop := %s, get := GetForm.%s, form := RouteForm.%s, cls := %s }" % (
+            lean_str(a), lean_str(p), gf, form, lean_str(c)) for a, p, gf, form, c in sorted(allp.values())]
+        body += "def %sRoutes : List AttrRoute :=\n  [%s]\n\n" % (kind, ",\n   ".join(rows))
+    body += "def elemRoutes : List (String × List AttrRoute) :=\n  [%s]\n\n" % ", ".join(
+        "(%s, %sRoutes)" % (lean_str(kind), kind) for kind, _, _ in ELEMENT_KIND.values())
+    body += "/-- the set / unset methods every element class has (`set_property(p, None)` is `unset_property(p)`; pinned idioms) -/\n"
+    body += "def routeMethods : List String := %s\n\n" % lean_list([lean_str(m) for m in sorted(ROUTE_METHODS)])
+    return body
+
+
 def _lean_row(fields):
     return "{ " + ", ".join("%s := %s" % kv for kv in fields) + " }"
 
@@ -524,7 +690,10 @@ structure KindTable where
         ["(%s, %s)" % (lean_str(en), lean_list([lean_str(m.name) for m in e]))
          for en, e in list(enums.items()) + [(e.__name__, e) for e in type_enums.values()]])
     body += "/-- `NO_UNSET_PROPERTIES` -/\ndef noUnset : List String := %s\n\n" % lean_list([lean_str(s) for s in no_unset])
-    body += "def nodeIdProp : String := %s\n" % lean_str(consts["NODE_ID"])
+    body += "def nodeIdProp : String := %s\n\n" % lean_str(consts["NODE_ID"])
+    routes = element_routes()
+    body += routes_lean(routes)
+    report["routes"] = {c: len(v["props"]) for c, v in routes.items()}
 
     # structural idioms that the hand-written model mirrors: pin their text
     pins = {}
